@@ -9,6 +9,7 @@ import (
 	"encoding/json"
 	"fmt"
 	"math"
+	"math/bits"
 	"math/rand"
 	"os"
 	"sort"
@@ -70,17 +71,47 @@ func (v *V) toAny() any {
 	case KList:
 		l := at.NewList()
 		for _, e := range v.L {
-			l.Add(e.toAny())
+			l.Add(e.toStored())
 		}
 		return l
 	case KObj:
 		o := at.NewObject()
 		for _, kv := range v.O {
-			o.Set(kv.K, kv.V.toAny())
+			o.Set(kv.K, kv.V.toStored())
 		}
 		return o
 	}
 	panic("bad kind")
+}
+
+// toStored is toAny for a value that is about to be STORED in a container: a number that a narrower Go type holds exactly is
+// handed over in that type every other time (decided by the value itself, so a replay repeats it). The container must hold the
+// same int / float64 either way (C12), so nothing downstream may notice - a conversion that keeps a trace of the entry type does.
+func (v *V) toStored() any {
+	switch v.K {
+	case KFloat:
+		if f := float32(v.F); float64(f) == v.F && bits.OnesCount64(math.Float64bits(v.F))%2 == 1 {
+			return f
+		}
+	case KInt:
+		switch i := v.I; ((i % 5) + 5) % 5 {
+		case 1:
+			if int(int32(i)) == i {
+				return int32(i)
+			}
+		case 2:
+			if i >= 0 && i < 65536 {
+				return uint16(i)
+			}
+		case 3:
+			return int64(i)
+		case 4:
+			if i >= 0 {
+				return uint(i)
+			}
+		}
+	}
+	return v.toAny()
 }
 
 func (v *V) toList() at.List     { return v.toAny().(at.List) }
@@ -219,15 +250,15 @@ func (v *V) desc() any {
 
 type Case struct {
 	ID         int            `json:"id"`
-	Coq        string         `json:"coq"`                  // Coq term: the case for the model (inputs + implementation observables)
-	Desc       any            `json:"desc"`                 // readable description
-	Pred       bool           `json:"pred"`                 // verdict of the property predicate on the implementation
-	PredMsg    string         `json:"pred_msg,omitempty"`   // what failed
-	Nontrivial bool           `json:"nontrivial"`           // by the property's stated rule
-	Key        string         `json:"key"`                  // canonical form for distinctness
-	Tags       []string       `json:"tags,omitempty"`       // histogram keys
+	Coq        string         `json:"coq"`                // Coq term: the case for the model (inputs + implementation observables)
+	Desc       any            `json:"desc"`               // readable description
+	Pred       bool           `json:"pred"`               // verdict of the property predicate on the implementation
+	PredMsg    string         `json:"pred_msg,omitempty"` // what failed
+	Nontrivial bool           `json:"nontrivial"`         // by the property's stated rule
+	Key        string         `json:"key"`                // canonical form for distinctness
+	Tags       []string       `json:"tags,omitempty"`     // histogram keys
 	Extra      map[string]any `json:"extra,omitempty"`
-	Chk        string         `json:"chk,omitempty"`     // alternative runner for this case ("xheap": a heap-level program inside another engine's stream)
+	Chk        string         `json:"chk,omitempty"` // alternative runner for this case ("xheap": a heap-level program inside another engine's stream)
 }
 
 type Out struct {
@@ -371,16 +402,16 @@ func (r *R) anyFloat() float64 {
 // code-point classes for strings
 var cpClasses = [][]rune{
 	{0x00, 0x01, 0x07, 0x08, 0x09, 0x0a, 0x0b, 0x0c, 0x0d, 0x1b, 0x1f}, // C0
-	{0x7f},                           // DEL
+	{0x7f}, // DEL
 	{'"'}, {'\\'}, {'/'},
 	{0x80, 0x85, 0x9f, 0xa0, 0xad}, // C1 and friends
 	{0x2028, 0x2029},
 	{0xfffd},
-	{0xd7ff, 0xe000, 0xfffe, 0xffff}, // surrogate-adjacent, noncharacters
+	{0xd7ff, 0xe000, 0xfffe, 0xffff},      // surrogate-adjacent, noncharacters
 	{0x10000, 0x1f600, 0x10ffff, 0xe0001}, // astral
 	{0x10a, 0x20a, 0x200a, 0x4e0a, 0x10d, 0x122, 0x15c, 0x12c, 0x13a, 0x15b, 0x15d, 0x17b, 0x17d, 0x120, 0x109, 0x2022, 0x205c, 0x1005c, 0x1000a}, // low byte (or low 16 bits) is a structural ASCII character
-	{0x0b, 0x0c, 0x85, 0xa0, 0x1680, 0x2000, 0x2003, 0x2028, 0x2029, 0x202f, 0x205f, 0x3000, 0xfeff, 0x200b}, // unicode.IsSpace beyond JSON's four (and two look-alikes that are not)
-	{0x378, 0x30000, 0xeffff},        // unassigned
+	{0x0b, 0x0c, 0x85, 0xa0, 0x1680, 0x2000, 0x2003, 0x2028, 0x2029, 0x202f, 0x205f, 0x3000, 0xfeff, 0x200b},                                      // unicode.IsSpace beyond JSON's four (and two look-alikes that are not)
+	{0x378, 0x30000, 0xeffff}, // unassigned
 	{'a', 'b', 'z', 'A', '0', '9', ' ', '.', '#', ':', ',', '[', ']', '{', '}', 'é', 'ß', '中', 'u', 'n', 't', '%', 's', 'd', 'v', '<', '>', '&', '\'', '`'},
 }
 
@@ -400,7 +431,7 @@ func (r *R) rune_() rune {
 }
 
 // strings that look like something else: the spellings of non-string values and of placeholders an implementation might use internally
-var sentinelStrings = []string{"NaN", "+Inf", "-Inf", "Inf", "Infinity", "null", "nil", "<nil>", "true", "false", "undefined", "0", "-0", "1e5", "[]", "{}", "[NaN]", ",NaN", "\"\"", "\\u0000", "\x00", "%s", "%!s(MISSING)", ",}", ",]", "\",\"", "}", "]", "{\"a\":1}", "[1,2]", ":", "\":", ",", "\\\"", "\"}"}
+var sentinelStrings = []string{"NaN", "+Inf", "-Inf", "Inf", "Infinity", "null", "nil", "<nil>", "true", "false", "undefined", "0", "-0", "1e5", "[]", "{}", "[NaN]", ",NaN", "\"\"", "\\u0000", "\x00", "%s", "%!s(MISSING)", ",}", ",]", "\",\"", "}", "]", "{\"a\":1}", "[1,2]", ":", "\":", ",", "\\\"", "\"}", "\\/", "a\\/b", "\\\\/", "/\\", "\\u002f", "\\\\u0041", "\\n", "\\\\"}
 
 func (r *R) str() string {
 	if r.chance(0.04) {
